@@ -214,7 +214,94 @@ func failedMakerHistory(r *mon.Rand, k int) ([]piece, string) {
 	return pieces, fmt.Sprintf("failed-closure-maker:%s:locals=%d:depth=%d:fails=%d", failKind, nloc, depth, fails)
 }
 
+// blockClosureHistory: closures made inside top-level blocks (if / for / range / switch arms) over variables
+// declared in those blocks are kept in globals and called in later pieces.
+func blockClosureHistory(r *mon.Rand, k int) ([]piece, string) {
+	stmts := []gen.Stmt{decl("keep", &gen.ListLit{}), decl("g", lit(int64(r.Range(1, 5))))}
+	form := mon.Pick(r, []string{"if", "for-three", "for-range", "switch", "nested"})
+	mkClosure := func(v string) gen.Expr {
+		if r.Bool() {
+			return fn("", nil, assign(v, "+=", lit(1)), ret(bin("+", id(v), id("g"))))
+		}
+		return fn("", nil, ret(&gen.ListLit{Items: []gen.Expr{id(v), id("g")}}))
+	}
+	push := func(v string) gen.Stmt {
+		return es(&gen.MethodCall{X: id("keep"), Name: "append", Args: []gen.Expr{mkClosure(v)}})
+	}
+	switch form {
+	case "if":
+		stmts = append(stmts, es(&gen.IfExpr{Cond: &gen.BoolLit{V: true}, Then: []gen.Stmt{decl("bv", lit(int64(r.Range(10, 50)))), push("bv"), push("bv")}}))
+	case "for-three":
+		stmts = append(stmts, &gen.For{Kind: "three", Init: decl("i", lit(0)), Cond: bin("<", id("i"), lit(2)), Post: &gen.IncDec{Name: "i", Op: "++"},
+			Body: []gen.Stmt{decl("bv", bin("*", id("i"), lit(10))), push("bv")}})
+	case "for-range":
+		stmts = append(stmts, &gen.For{Kind: "range2", K: "rk", V: "rv", Iter: &gen.ListLit{Items: []gen.Expr{lit(7), lit(8)}},
+			Body: []gen.Stmt{decl("bv", bin("+", id("rv"), id("rk"))), push("bv")}})
+	case "switch":
+		stmts = append(stmts, es(&gen.SwitchExpr{Subject: lit(1), Cases: []gen.SwitchCase{{Values: []gen.Expr{lit(1)}, Body: []gen.Stmt{decl("bv", lit(30)), push("bv")}}, {Default: true, Body: []gen.Stmt{assign("g", "=", lit(0))}}}}))
+	case "nested":
+		inner := es(&gen.IfExpr{Cond: &gen.BoolLit{V: true}, Then: []gen.Stmt{decl("bw", bin("+", id("bv"), lit(1))), push("bw"), push("bv")}})
+		stmts = append(stmts, es(&gen.IfExpr{Cond: &gen.BoolLit{V: true}, Then: []gen.Stmt{decl("bv", lit(40)), inner}}))
+	}
+	n := r.Range(2, 5)
+	for i := 0; i < n; i++ {
+		switch r.Intn(4) {
+		case 0:
+			stmts = append(stmts, assign("g", "+=", lit(100)))
+		case 1:
+			stmts = append(stmts, decl(fmt.Sprintf("extra%d", i), lit(int64(i))))
+		default:
+			stmts = append(stmts, es(call(&gen.Index{X: id("keep"), I: lit(int64(r.Intn(2)) - 1)})))
+		}
+	}
+	stmts = append(stmts, es(call(&gen.Index{X: id("keep"), I: lit(0)})), es(&gen.MethodCall{X: id("keep"), Name: "map", Args: []gen.Expr{fn("", []string{"f"}, ret(call(id("f"))))}}))
+	return cutPieces(r, stmts, false), fmt.Sprintf("block-closure:%s:n=%d", form, n)
+}
+
+// unreachedDeclHistory: a multi-statement piece fails at run time BEFORE const / var / := declarations with
+// literal initialisers in the same piece; later pieces never mention those names (the session's end probes
+// them: they must not carry the values of initialisers that never ran).
+func unreachedDeclHistory(r *mon.Rand, k int) ([]piece, string) {
+	pieces := []piece{{Stmts: []gen.Stmt{decl("u", lit(int64(r.Range(1, 9))))}}}
+	var failing gen.Stmt
+	switch r.Intn(3) {
+	case 0:
+		failing = es(&gen.Index{X: &gen.ListLit{Items: []gen.Expr{lit(1)}}, I: lit(5)})
+	case 1:
+		failing = es(bin("+", id("u"), &gen.StrLit{V: "x"}))
+	default:
+		failing = es(call(id("error"), &gen.StrLit{V: "stop"}))
+	}
+	body := []gen.Stmt{assign("u", "+=", lit(1)), failing}
+	n := r.Range(1, 4)
+	for i := 0; i < n; i++ {
+		name := fmt.Sprintf("late%d_%d", k%10, i)
+		kind := mon.Pick(r, []string{"const", "const", "var", ":="})
+		var x gen.Expr
+		switch r.Intn(4) {
+		case 0:
+			x = lit(int64(100 + r.Intn(900)))
+		case 1:
+			x = &gen.StrLit{V: fmt.Sprintf("s%d", r.Intn(99))}
+		case 2:
+			x = &gen.FloatLit{V: float64(r.Intn(50)) + 0.5}
+		default:
+			x = &gen.BoolLit{V: true}
+		}
+		body = append(body, &gen.VarDecl{Kind: kind, Name: name, X: x})
+	}
+	pieces = append(pieces, piece{Stmts: body})
+	pieces = append(pieces, piece{Stmts: []gen.Stmt{es(id("u"))}}, piece{Stmts: []gen.Stmt{assign("u", "*=", lit(2)), es(id("u"))}})
+	return pieces, fmt.Sprintf("unreached-declarations:n=%d", n)
+}
+
 func nestedHistory(r *mon.Rand, k int) ([]piece, string) {
+	if k%16 == 15 {
+		return unreachedDeclHistory(r, k)
+	}
+	if k%16 == 13 {
+		return blockClosureHistory(r, k)
+	}
 	if k%16 == 1 {
 		return failedMakerHistory(r, k)
 	}
